@@ -142,6 +142,20 @@ def check(case, acc):
         if o != vals[i]:
             acc.fail("element-wrong", (i, vals[i]), o)
             break
+        if i in (0, 1, n // 2, n - 1):
+            # the position as numpy integer scalars (what unpack(), len arithmetic and index arrays hand over)
+            stop = False
+            for sp in (np.int64, np.uint64, np.int32, np.uint8):
+                if i > int(np.iinfo(sp).max):
+                    continue
+                o = attempt(lambda: int(pk()[sp(i)]))
+                acc.trans()
+                if o != vals[i]:
+                    acc.fail("element-wrong", (f"{sp.__name__}({i})", vals[i]), o)
+                    stop = True
+                    break
+            if stop:
+                break
     fams = []
     if n:
         fams = [[0], [n - 1], list(range(n))[::-1], [0, 0, n - 1, 0], list(range(0, n, 3)), [i for i in (p - 1, p, p + 1, 2 * p) if i < n],
